@@ -131,9 +131,11 @@ CLAIMED.update({
             "length, and with a drawdown limit the produced temperature never falls below limit x initial temperature "
             "(redrilling tiles the series - lemma tiling_covers_the_series). "
             "SFReservoir.Calculate (single fracture, model 3): the history starts at BHT, never exceeds it and never "
-            "rises (erf / sqrt uninterpreted with the library facts 'increasing' and their ranges, A3).",
-            TRUSTED + "Multiple-parallel-fractures and linear-heat-sweep histories (numerical inverse Laplace transform: "
-            "start-at-BHT only would be claimable), SBT, SUTRA and TOUGH2 are not under contract; Ramey's wellbore heat "
+            "rises (erf / sqrt uninterpreted with the library facts 'increasing' and their ranges, A3). "
+            "MPFReservoir / LHSReservoir.Calculate (models 1, 2): the history starts at BHT and has one value per "
+            "time point (the inverted Laplace solution is an uninterpreted value per time point; monotonicity is, as "
+            "the property says, not claimed for these models).",
+            TRUSTED + "SBT, SUTRA, TOUGH2 and user-provided histories are not under contract; Ramey's wellbore heat "
             "loss has a verified length contract only; monotonicity is claimed only for Trock >= Tinj (complement "
             "recorded as finding F3 in DESIGN.md).", "DESIGN.md section 4 C05"),
 })
